@@ -34,7 +34,7 @@ const SYMBOLS: [&str; 4 + XT] = ["tka", "tkb", "dup", "dup", "tkc", "tkd", "tke"
 const TOKEN_DEC: [u8; 4 + XT] = [6, 8, 18, 6, 6, 6, 8, 18, 6, 6];
 /// the extended universe (indices `N..NT`): natives first, then cw20 tokens. Used by the vault and the
 /// incentive registry (one entry per asset). Letters-only denoms give a valid vault LP symbol.
-const XN: usize = 29;
+const XN: usize = 31;
 const XT: usize = 6;
 const NT: usize = N + XN + XT;
 const XDENOMS: [&str; XN] = [
@@ -46,6 +46,9 @@ const XDENOMS: [&str; XN] = [
     "ibc/b3504e092456ba618cc28ac671a71fb08c6ca0fd0be7c8a5b5a3e2dd933cc9e4",
     "factory/migaloo1erul6xyq0gk6ws98ncj7lnq9l4jn4gnnu9we73gdz78yyl2lr7qqrvcgup/uLP",
     "peggy0xdAC17F958D2ee523a2206206994597C13D831ec7",
+    // core denoms with a trailing / a leading blank: distinct denoms for the mock bank and for every registry
+    // key (a real chain would not mint them; a registry that trims its keys would merge them with the core ones)
+    "uwhale ", " uusdc",
 ];
 /// Address spellings: universe indices `NT..NU` name a cw20 token of the universe by its address in
 /// UPPER case. `addr_canonicalize` is case-insensitive (as for bech32), so the pool and the incentive
